@@ -919,3 +919,31 @@ fn test_pack_relation() {
     };
     assert_eq!(PackedRelation::pack(r.clone()).unpack(), r);
 }
+
+/// Read-only access to private items for the verification harness.
+#[cfg(yamaquasi_verif)]
+pub mod verif_access {
+    use super::*;
+
+    /// Round trip through the compact storage form.
+    pub fn pack_unpack(r: &Relation) -> Relation {
+        PackedRelation::pack(r.clone()).unpack()
+    }
+
+    /// Pending single-large-prime relations (decoded), sorted by large prime.
+    pub fn partial(rs: &RelationSet) -> Vec<(u64, Relation)> {
+        let mut v: Vec<(u64, Relation)> = rs.partial.iter().map(|(&k, r)| (k, r.unpack())).collect();
+        v.sort_by_key(|x| x.0);
+        v
+    }
+
+    /// Pending double-large-prime relations (decoded), in key order.
+    pub fn doubles(rs: &RelationSet) -> Vec<((u32, u32), Relation)> {
+        rs.doubles.iter().map(|(&k, r)| (k, r.unpack())).collect()
+    }
+
+    /// The reverse lookup set of pending double-large-prime relations.
+    pub fn doubles_rev(rs: &RelationSet) -> Vec<(u32, u32)> {
+        rs.doubles_rev.iter().cloned().collect()
+    }
+}
